@@ -466,7 +466,7 @@ const (
 	rule = "case = (d,p) in {1..4}x{1..3} x blob size x set of damaged shard files x damage kind per shard [x repair flag], or (d,p) x size x set of failing shard writes x failure mode. " +
 		"Enumerated per (d,p,size): a single-shard sweep for every shard index (missing; truncation lengths incl. 0, inside the 17-byte header, exactly 17, partial; one byte appended; pad-byte bits; md5 bits; data bits); " +
 		"every subset of at most p+1 shards x every assignment of {missing, empty(=17B), truncated, corrupt(data bit), badsum(md5 bit), badpad(pad-count bit)} where that product fits the per-group budget, " +
-		"else every subset x every uniform assignment + every ordered kind pair on three fixed shard pairs + seed-sampled mixed assignments (closed under sub-damage); other sizes: every subset x uniform kinds; " +
+		"else every subset x every uniform assignment + every ordered kind pair on three fixed shard pairs + seed-sampled mixed assignments (closed under sub-damage); always the boundary mixes (p shards removed + one more shard damaged in each kind, first-p and last-p variants); other sizes: every subset x uniform kinds; " +
 		"header cuts (<17B, they kill the reader on the unchanged library) in the sweep, in uniform subsets and in the full mixed product of small (d,p) only; a strided subset of the same reads with repair on; " +
 		"every subset (sizes 0..d+p) of failing shard writes x {WriteFile fails, MkdirAll fails} (quick: MkdirAll mode at p and p+1 failures only). " +
 		"Distinct class = family:(d,p):size class:repair flag:relation of damage count to p:kind set (read) or family:(d,p):size class:mode:failure count (write). " +
@@ -547,6 +547,29 @@ func genCases(r *report.Run) ([]Case, bool) {
 							complete = false
 						}
 						if size == cfg.D+1 {
+							// Boundary mixes, fixed for every seed and (d,p): p shards removed and one more shard
+							// damaged in each kind - the smallest damage beyond parity that leaves d readable
+							// files. Once with the first p shards removed (the damaged one is then the first
+							// file the decoder sees), once with the last p removed and shard 0 damaged.
+							for _, kind := range BodyKinds[1:] {
+								for _, front := range []bool{true, false} {
+									var dmg []Damage
+									odd := cfg.P
+									if !front {
+										odd = 0
+									}
+									for i := 0; i < cfg.P; i++ {
+										sh := i
+										if !front {
+											sh = n - 1 - i
+										}
+										dmg = append(dmg, Damage{Shard: sh, Kind: KMissing})
+									}
+									if dm, ok := MkDamage(r.Seed, cfg.D, cfg.P, size, odd, kind); ok {
+										cs.Add(append(dmg, dm))
+									}
+								}
+							}
 							if cutMixed[cfg] {
 								Product(cs, r.Seed, cfg, size, cfg.P+1, ProductKinds, 1<<30, 0)
 							} else if r.Thorough() {
